@@ -13,12 +13,14 @@ std::string sqf::runtime::diagnostics::stacktrace::to_string() const
     }
     for (auto& frame : frames)
     {
+        // A frame may already have reached its end (eg. after exitWith): never dereference current() directly
+        auto diag_info = frame.diag_info_from_position();
         sstream <<
             "<" << std::setw(3) << ++i << " of " << frames.size() << "> " <<
-            LogLocationInfo((*frame.current())->diag_info()).format() <<
+            LogLocationInfo(diag_info).format() <<
             "[" << (frame.globals_value_scope()->scope_name().empty() ? "SCOPENAME-NA" : frame.globals_value_scope()->scope_name()) << "] " <<
             "[" << (frame.scope_name().empty() ? "SCOPENAME-EMPTY" : frame.scope_name()) << "]" << std::endl <<
-            (*frame.current())->diag_info().code_segment << std::endl;
+            diag_info.code_segment << std::endl;
     }
     return sstream.str();
 }
